@@ -37,11 +37,11 @@ KANI_ASSUMES = ["A6", "A9"]
 V5_REST = "v5: ConnackProperties::encode is proved on a text in which each of its 16 conditional property writes is outlined into a helper function (rewrite rule R30, tokens of the statements unchanged; assumption A11); PollHeader::new_with forwarders and Packet::get_type are not under contract"
 LEMMAS = "spec-level composition lemmas: round trip p_X(enc_X(x)+rest)==Ok(x,|enc|) is proved (unit lem3) for the primitives, the fixed header and every v3 packet type as a whole packet with trailing bytes; prefix=>Incomplete for the primitives only; for the v5 packets, framing of concatenations and |enc| <= consumed the property is decided per function (encoder == enc_X, decoder == p_X, decoded value valid() for the encoder) and the composition is by inspection of the two specs"
 GAPS = {
-    "C01": [V5_REST, LEMMAS, "poll body phase is bounded (body length <= 4)"],
+    "C01": [V5_REST, LEMMAS, "poll body phase is bounded (body length <= 4 quick, <= 8 thorough)"],
     "C02": [V5_REST, "F5-style oversize property sections: encode_len's precondition valid() excludes sections >= 2^28 bytes (the crate panics there instead of returning an error; not exercised by any obligation)"],
-    "C03": ["poll body phase is bounded (body length <= 4); memory-level initialisation of the MaybeUninit buffer is not machine-checked (A8)"],
+    "C03": ["poll body phase is bounded (body length <= 4 quick, <= 8 thorough); memory-level initialisation of the MaybeUninit buffer is not machine-checked (A8)"],
     "C04": ["composition poll-step o block_decode o new_with is on paper (DESIGN 2.3)"],
-    "C05": ["two-reads-in-one-poll (merge) harnesses do not finish under CBMC within the time limit (thorough tier, reported undecided when they time out); schedule independence rests on the single-step contracts plus the structural argument of DESIGN 2.3", "body phase bounded (body length <= 4)"],
+    "C05": ["two reads inside one poll == two polls (merge) is machine-checked for the header phase only, and only in the thorough tier (complete Kani harness poll.header-merge, about 9 minutes); the body-phase merge harness does not finish; otherwise schedule independence rests on the single-step contracts plus the structural argument of DESIGN 2.3", "body phase bounded (body length <= 4 quick, <= 8 thorough)"],
     "C06": ["agreement is by the dispatchers refining the same spec (p3_packet/p3_body, p5_packet/p5_body); the final step from poll-step contract (Kani, mock header) to the real Header impls is on paper"],
     "C07": [LEMMAS],
     "C08": [LEMMAS],
